@@ -34,7 +34,7 @@ def main(tier, replay=None):
     if exe is None:
         return c.finish(TRUSTED, no_input_break="extraction/OCaml build of the Ledger model failed: " + err[-1500:])
 
-    n = 160 if tier == "quick" else 3000
+    n = 400 if tier == "quick" else 4000
     impl = os.path.join(c.workdir, "impl.txt")
     args = [outs[0], "-n", str(n), "-out", impl, "-j", str(V.NCPU)]
     if replay:
